@@ -552,40 +552,37 @@ def check_consumers(chk):
     sd = dmod.func('sort_data', 'C11.U')
     _check_sorts(chk, dmod, 'sort_data', sd, compare_names={'_sort_data_fn'}, allow_param_fn=False)
     fn = dmod.func('_sort_data_fn', 'C11.U')
-    ok = False
-    for n in walk_no_nested(fn):
-        if isinstance(n, ast.IfExp):
-            b, o = n.body, n.orelse
-            if isinstance(b, ast.Call) and isinstance(o, ast.Call) and call_name(b) == call_name(o) == 'value_compare':
-                ab, ao = [norm(x) for x in b.args], [norm(x) for x in o.args]
-                if ab == list(reversed(ao)) and ab[0] != ab[1]:
-                    # which one is the descending one?  the branch taken when `desc` is true must have the row2 value first
-                    params = [a.arg for a in fn.args.args]
-                    defs = local_defs(fn.body + [s for f in fn.body if isinstance(f, ast.For) for s in f.body])
-                    d_first = derivation(b.args[0], defs, params)
-                    ok = True
-                    desc_branch = o if (isinstance(n.test, ast.UnaryOp) and isinstance(n.test.op, ast.Not)) else b
-                    v1 = _row_of(desc_branch.args[0], fn)
-                    v2 = _row_of(desc_branch.args[1], fn)
-                    if v1 is not None and v2 is not None and (v1, v2) == (2, 1):
-                        chk.ok('C11.U', f'_sort_data_fn: descending swaps the operands: {norm(n)}')
-                    else:
-                        chk.bad('C11.U', dmod, '_sort_data_fn', norm(n),
-                                'descending order must compare (row2 value, row1 value) and ascending (row1 value, row2 value)', node=n)
-    if not ok:
-        cs = [n for n in walk_no_nested(fn) if isinstance(n, ast.Call) and call_name(n) == 'value_compare']
-        chk.bad('C11.U', dmod, '_sort_data_fn', '; '.join(norm(c) for c in cs) or 'no value_compare',
-                'the data sort comparator must be value_compare with operands swapped iff the key is descending', node=fn)
-    # first non-zero key wins
-    loops = [n for n in fn.body if isinstance(n, ast.For)]
-    if len(loops) == 1:
-        good = any(isinstance(n, ast.If) and isinstance(n.test, ast.Compare) and isinstance(n.test.ops[0], ast.NotEq) and norm(n.test.comparators[0]) == '0'
-                   and any(isinstance(s, ast.Return) and norm(s.value) == norm(n.test.left) for s in n.body) for n in ast.walk(loops[0]))
-        tail = fn.body[-1]
-        if good and isinstance(tail, ast.Return) and norm(tail.value) == '0':
-            chk.ok('C11.U', '_sort_data_fn: first non-zero key comparison wins, else 0')
-        else:
-            chk.bad('C11.U', dmod, '_sort_data_fn', 'key loop', 'multi-key sort must return the first non-zero key comparison and 0 when all keys are equal', node=loops[0])
+    # abstract execution (E6l) of the row comparator over opaque values a < b < c (null lowest): sign of the first differing key, flipped for descending keys
+    from .. import libsim
+    it = libsim.LibInterp(chk.repo, dmod, 'C11.U')
+    rank, cases = libsim.sort_fn_scenarios()
+    it.rank = rank
+    n_cases = 0
+    wrong = None
+    for spec, r1, r2, want in cases:
+        n_cases += 1
+        try:
+            got = it.run(fn, [libsim._abs(spec), libsim._abs(r1), libsim._abs(r2)])
+        except libsim.HostOrdering as ho:
+            chk.bad('C11.U', dmod, '_sort_data_fn', 'host comparison of row values',
+                    'the data sort comparator compares row values with a host operator (==, <, min ...) instead of value_compare: Python equality identifies true with 1 and false with 0 '
+                    '(and [true] with [1]), so such rows tie although the value comparison orders them; the sorted output is then not ordered under the comparison every other consumer uses',
+                    node=ho.node if ho.node is not None else fn)
+            wrong = 'reported'
+            break
+        sgn = None
+        if got[0] == 'value' and isinstance(got[1], (int, float)) and not isinstance(got[1], bool):
+            sgn = (got[1] > 0) - (got[1] < 0)
+        if sgn != want and wrong is None:
+            wrong = (spec, r1, r2, got, want)
+    if wrong is None:
+        chk.ok('C11.U', f'_sort_data_fn: {n_cases} abstract calls (0-2 keys, ascending / descending, missing and null fields): sign of the first key on which the rows differ under value_compare, '
+               f'reversed for descending keys, 0 when all keys tie', count=n_cases)
+    elif wrong != 'reported':
+        spec, r1, r2, got, want = wrong
+        chk.bad('C11.U', dmod, '_sort_data_fn', f'sorts={spec!r}: {got[1] if got[0] == "value" else got[:2]!r} instead of sign {want}',
+                f'abstract execution: _sort_data_fn({spec!r}, {libsim.show_arg(list(r1.items()))}, {libsim.show_arg(list(r2.items()))}) gives {got[1] if got[0] == "value" else got[:2]!r}; the rows differ first on a key whose '
+                f'value comparison (reversed for a descending key) has sign {want}', node=fn)
 
 
 def _row_of(node, fn):
